@@ -99,15 +99,20 @@ def ensure_facts(all_targets=False, log=print):
         log("[extract] driver missing, building")
         build_engines()
     variant = "all" if all_targets else "lib"
-    with open(os.path.join(CACHE, "lock"), "w") as lk:
+    key = repo_hash(extra=_sha(DRIVER) + variant)
+    os.makedirs(os.path.join(CACHE, "locks"), exist_ok=True)
+    with open(os.path.join(CACHE, "locks", key), "w") as lk:
         fcntl.flock(lk, fcntl.LOCK_EX)
-        key = repo_hash(extra=_sha(DRIVER) + variant)
         d = os.path.join(CACHE, "facts", key)
         done = os.path.join(d, "DONE")
         info = {"facts_key": key, "cached": True}
         if os.path.exists(done) and any(f.endswith(".json") for f in os.listdir(d)):
             info.update(json.load(open(done)))
             info["cached"] = True
+            try:
+                os.utime(d)
+            except OSError:
+                pass
             return d, info
         if os.path.exists(d):
             shutil.rmtree(d)
@@ -142,9 +147,40 @@ def ensure_facts(all_targets=False, log=print):
         # prune old entries
         root = os.path.join(CACHE, "facts")
         ents = sorted((os.path.getmtime(os.path.join(root, e)), e) for e in os.listdir(root))
-        for _, e in ents[:-6]:
+        for _, e in ents[:-24]:
             shutil.rmtree(os.path.join(root, e), ignore_errors=True)
         return d, info
+
+
+def selfcheck_facts():
+    """facts of engine/selfcheck (positive controls), extracted with the same driver; cached by content hash"""
+    sc = os.path.join(VERIF, "engine", "selfcheck")
+    os.makedirs(CACHE, exist_ok=True)
+    if not os.path.exists(DRIVER):
+        build_engines()
+    key = hashlib.sha256((_sha(os.path.join(sc, "src", "lib.rs")) + _sha(DRIVER)).encode()).hexdigest()[:16]
+    d = os.path.join(CACHE, "selfcheck", key)
+    if os.path.exists(os.path.join(d, "DONE")):
+        return d
+    shutil.rmtree(d, ignore_errors=True)
+    os.makedirs(d)
+    target = tempfile.mkdtemp(prefix="verif-selfcheck-")
+    try:
+        env = offline_env()
+        env["LD_LIBRARY_PATH"] = nightly_sysroot() + "/lib"
+        env["RUSTFLAGS"] = "-Zmir-opt-level=0 -Awarnings"
+        env["RUSTC_WORKSPACE_WRAPPER"] = DRIVER
+        env["FACTDRV_OUT"] = d
+        env["CARGO_TARGET_DIR"] = target
+        r = sh("cargo +nightly check --offline", cwd=sc, env=env)
+        if r.returncode != 0 or not any(f.endswith(".json") for f in os.listdir(d)):
+            sys.stdout.write(r.stdout[-3000:])
+            print("ERROR: positive-control crate did not build under the driver")
+            raise SystemExit(2)
+    finally:
+        shutil.rmtree(target, ignore_errors=True)
+    open(os.path.join(d, "DONE"), "w").write("ok")
+    return d
 
 
 # ------------------------------------------------------------------ known findings
@@ -248,6 +284,14 @@ def run_property(prop, rules, level, explanation, assumptions, tier, all_targets
             traceback.print_exc()
             print("ERROR: rule %s crashed: %r" % (rid, e))
             return 2
+    if tier == "thorough" and not os.environ.get("VERIF_SUBRUN"):
+        import selftest
+        st = selftest.run(prop)
+        extra_coverage = dict(extra_coverage or {})
+        extra_coverage["mutation_selftest"] = st
+        R.count("selftest_patches", st["patches"])
+        R.count("selftest_caught", len(st["caught"]))
+        R.count("selftest_missed", len(st["missed"]))
     return finish(prop, R, level, explanation, assumptions, tier, t0, info, extra_coverage)
 
 
@@ -286,7 +330,8 @@ def finish(prop, R, level, explanation, assumptions, tier, t0, info, extra_cover
     stale = [k for (p, k) in known if p == prop and k not in set(r["key"] for r in known_hit)]
     for k in stale:
         print("  note: listed finding %s no longer reproduces on this tree (nothing suppressed)" % k)
-    replay_dir = os.path.join(VERIF, "out", "replay")
+    subrun = bool(os.environ.get("VERIF_SUBRUN"))
+    replay_dir = os.path.join(VERIF, "out", "replay-sub" if subrun else "replay")
     os.makedirs(replay_dir, exist_ok=True)
     for i, r in enumerate(new_violations):
         path = os.path.join(replay_dir, "%s-%d.json" % (prop, i))
@@ -339,8 +384,9 @@ def finish(prop, R, level, explanation, assumptions, tier, t0, info, extra_cover
         "wall_s": round(wall, 2),
         "violations": len(new_violations),
     }
-    os.makedirs(os.path.join(VERIF, "evidence"), exist_ok=True)
-    json.dump(ev, open(os.path.join(VERIF, "evidence", prop + ".json"), "w"), indent=1, default=str)
+    if not subrun:
+        os.makedirs(os.path.join(VERIF, "evidence"), exist_ok=True)
+        json.dump(ev, open(os.path.join(VERIF, "evidence", prop + ".json"), "w"), indent=1, default=str)
     print("[%s] obligations=%d holds=%d known=%d new=%d undecided=%d wall=%.1fs" % (
         prop, len(R.results), n_h, len(known_hit), len(new_violations), n_u, wall))
     return 1 if new_violations else 0
